@@ -101,3 +101,14 @@ Proof.
   exists (mkAttrs None None None None None None None None), [Fin 0; Fin 1; Fin (-2147483647)].
   vm_compute. split; [discriminate|reflexivity].
 Qed.
+
+(* before handoff/C07-fix3-1.diff: with only a scale_factor of exactly 1 (no arithmetic)
+   the data were cast to the attribute's own type: the unsigned view 65531 of an int16
+   variable with _Unsigned = "true" and scale_factor = 1s came back as -5 (the netCDF4 library
+   keeps 65531), and int32 data with a scale_factor of type int16 wrapped around. *)
+Theorem C07_old_identity_packing_changes_values_refuted :
+  unpack_elem_old U2 (Some (I2, Fin 1)) None (Fin 65531) = Fin (-5) /\
+  unpack_elem U2 (Some (I2, Fin 1)) None (Fin 65531) = Fin 65531 /\
+  unpack_elem_old I4 None (Some (I2, Fin 0)) (Fin 70000) = Fin 4464 /\
+  unpack_elem I4 None (Some (I2, Fin 0)) (Fin 70000) = Fin 70000.
+Proof. vm_compute. repeat split; reflexivity. Qed.
